@@ -449,6 +449,14 @@ func (fr *Frame) sliceOp(st *State, pc Term, ins *ssa.Slice) Val {
 			fr.safety("slice", ins.Pos(), pc, And(Cmp("<=", IntLit(0), lo), Cmp("<=", lo, hi), Cmp("<=", hi, n)), "array slice bounds")
 			return Val{K: vSlice, R: x.R, Off: lo, Len: Arith("-", hi, lo), S: u.SliceOf(x.R.Elem)}
 		}
+		if cv, ok := st.cell[x.R]; ok && x.R.Kind == 0 && cv.K == vTerm && cv.T.Sort == SHash && len(x.Path) == 0 && !hasLo && !hasHi {
+			// h[:] of a [8]byte: the eight bytes of the hash as a function of its value
+			rs := e.p.sortOf(ins.Type())
+			e.declareFun("hash_bytes", []Sort{SHash}, rs)
+			r := App(rs, "hash_bytes", cv.T)
+			e.assume(Eq(u.SLen(r), IntLit(8)))
+			return e.wrap(st, r, "fresh")
+		}
 		if x.R.Kind == 0 {
 			// slice of a [N]T held in a cell (e.g. Hash8): abstract
 			e.note("slice of array in cell abstracted (%s)", ins.X.Type())
